@@ -43,10 +43,52 @@ pub fn run(cfg: &Cfg) {
         let privs: Vec<&in_toto::crypto::PrivateKey> = signers.iter().map(|k| &k.key).collect();
         let pubs: Vec<PublicKey> = signers.iter().map(|k| k.public().clone()).collect();
         let replay_base = format!("signers={:?} meta={}", signers.iter().map(|k| k.label.clone()).collect::<Vec<_>>(), hex(serde_json::to_string(&meta).unwrap().as_bytes()));
-        for path in ["new", "builder"] {
+        for path in ["new", "builder", "raw"] {
             let mb = match path {
                 "new" => Metablock::new(meta.clone(), &privs),
-                _ => MetablockBuilder::from_metadata(meta.clone().into_trait()).sign(&privs).map(|b| b.build()),
+                "builder" => MetablockBuilder::from_metadata(meta.clone().into_trait()).sign(&privs).map(|b| b.build()),
+                _ => {
+                    // the builder fed with a document somebody else serialised: the same metadata, but not
+                    // in this library's own form - further members the model has no field for, another
+                    // notation of the same expiry instant, key entries without the redundant `keyid`,
+                    // pretty-printed or compact
+                    let mut v = serde_json::to_value(&meta).unwrap();
+                    let mut form = vec![];
+                    if r.chance(1, 2) {
+                        v["spec_version"] = serde_json::json!("0.9");
+                        form.push("extra-member");
+                    }
+                    if r.chance(1, 3) {
+                        v["x-annotations"] = serde_json::json!({"reviewed": true, "tags": ["a", 1]});
+                        form.push("extra-object");
+                    }
+                    if let Some(e) = v.get("expires").and_then(|e| e.as_str()).map(String::from) {
+                        if e.ends_with('Z') && r.chance(1, 2) {
+                            v["expires"] = serde_json::json!(format!("{}+00:00", &e[..e.len() - 1]));
+                            form.push("offset-expiry");
+                        }
+                    }
+                    if let Some(keys) = v.get_mut("keys").and_then(|k| k.as_object_mut()) {
+                        if r.chance(1, 2) {
+                            for (_, k) in keys.iter_mut() {
+                                if let Some(o) = k.as_object_mut() {
+                                    o.remove("keyid");
+                                }
+                            }
+                            form.push("keys-without-keyid");
+                        }
+                    }
+                    let text = if r.chance(1, 2) { serde_json::to_string_pretty(&v).unwrap() } else { v.to_string() };
+                    sink.stat(&format!("raw-form/{}", if form.is_empty() { "own".to_string() } else { form.join("+") }));
+                    match guarded(move || MetablockBuilder::from_raw_metadata(text.as_bytes())) {
+                        Ok(Ok(b)) => b.sign(&privs).map(|b| b.build()),
+                        Ok(Err(e)) => Err(e),
+                        Err(()) => {
+                            sink.oracle(false, "MetablockBuilder::from_raw_metadata panicked", &replay_base);
+                            continue;
+                        }
+                    }
+                }
             };
             let mb = match mb {
                 Ok(m) => m,
